@@ -77,6 +77,74 @@ def ints(line):
         return None
 
 
+def cli_summary(ctx, rng, minstr, maxstr, r100_t):
+    """RPU files whose source_min_pq / source_max_pq / L2 target_max_pq run over the 12-bit codes (all 4096 in the
+    thorough tier), summarised by the real `dovi_tool info -s`; the printed nits must be the values derived from the
+    stored codes (tables validated above against the exact ST 2084 luminance)."""
+    import os, re
+    from . import rpucases, clirun
+    if len(minstr) != 4096 or len(maxstr) != 4096 or len(r100_t) != 4096:
+        return
+    ok, out = common.cargo_build_cli()
+    if not ok:
+        raise common.CheckError("dovi_tool does not build:\n" + out[-3000:])
+    base = [p for n, p in rpucases.asset_rpus() if "profile8" in n][0]
+    l2 = '{"Level2":{"target_max_pq":%d,"trim_slope":2048,"trim_offset":2048,"trim_power":2048,"trim_chroma_weight":2048,"trim_saturation_gain":2048,"ms_weight":2048}}'
+    codes = list(range(4096)) if ctx.tier != "quick" else sorted(set([0, 1, 7, 62, 1803, 2081, 2614, 2851, 3079, 3260, 3388, 3696, 4095] + [rng.below(4096) for _ in range(500)]))
+    per_file = 16
+    files = []
+    lines = []
+    for i in range(0, len(codes), per_file):
+        grp = codes[i:i + per_file]
+        files.append(grp)
+        for c in grp:
+            lines.append("rpu.ops %s minmax:%d:%d;rmlevel:2;add:x|%s" % (base.hex(), c, (c * 2654435761) % 4096, l2 % ((c * 40503 + 17) % 4096)))
+    outs, _, _ = common.run_lines_sharded(common.LIBCASE, lines)
+    work = clirun.workdir("c19")
+    try:
+        k = 0
+        for grp in files:
+            rpus = []
+            exp_pairs = set()
+            exp_l2 = []
+            for c in grp:
+                o = outs[k]; k += 1
+                if not o.startswith("ok ") or o.split(" ")[1] in ("werr", "wpanic"):
+                    continue
+                rpus.append(bytes.fromhex(o.split(" ")[1]))
+                mx = (c * 2654435761) % 4096
+                exp_pairs.add((c, mx))
+                t = (c * 40503 + 17) % 4096
+                if t not in exp_l2:
+                    exp_l2.append(t)
+            if not rpus:
+                continue
+            fp = os.path.join(work, "s.bin")
+            clirun.write_rpu_file(fp, rpus)
+            rc, so, se = clirun.run(["info", "-i", fp, "-s"])
+            txt = so.decode(errors="replace")
+            ctx.evaluations += 1
+            m = re.search(r"RPU mastering display: (.*)", txt)
+            m2 = re.search(r"L2 trims: (.*)", txt)
+            want_md = ", ".join("%s/%s nits" % (minstr[a], maxstr[b]) for a, b in sorted(exp_pairs))
+            # the summary converts each distinct target_max_pq and lists the results in order of first appearance
+            want_l2 = ", ".join("%d nits" % (r100_t[t] * 100) for t in exp_l2)
+            ctx.count("cli-summary files")
+            ctx.nontriv("cli-summary %d" % grp[0])
+            if rc != 0 or not m or m.group(1).strip() != want_md:
+                rp = os.path.join(common.VERIF, "replays", "C19-summary-%d.bin" % grp[0])
+                clirun.write_rpu_file(rp, rpus)
+                ctx.oracle_fail({"op": "info -s (mastering display nits)", "input": rp, "codes": sorted(exp_pairs)[:4],
+                                 "observed": (m.group(1)[:200] if m else "exit %s" % rc), "expected": want_md[:200], "shape": "summary-nits"})
+            elif not m2 or m2.group(1).strip() != want_l2:
+                rp = os.path.join(common.VERIF, "replays", "C19-summary-%d.bin" % grp[0])
+                clirun.write_rpu_file(rp, rpus)
+                ctx.oracle_fail({"op": "info -s (L2 trims nits)", "input": rp, "codes": exp_l2[:6],
+                                 "observed": (m2.group(1)[:200] if m2 else "-"), "expected": want_l2[:200], "shape": "summary-l2-nits"})
+    finally:
+        clirun.cleanup(work)
+
+
 def run(ctx):
     quick = ctx.tier == "quick"
     ctx.exhaustive = True
@@ -249,6 +317,11 @@ def run(ctx):
                                      "observed": r100_t[c] * 100, "expected": n})
             ctx.sample("summary code 3079 -> %s/%s nits, L2 trim %d nits" % (minstr[3079], maxstr[3079], r100_t[3079] * 100))
             ctx.sample("summary code 62 -> %s/%s nits" % (minstr[62], maxstr[62]))
+
+    # ---------------------------------------------------------------------------------------------
+    # the summary of the real CLI (`info -s`): mastering-display and L2 trim nits of stored codes
+    # ---------------------------------------------------------------------------------------------
+    cli_summary(ctx, rng, minstr if 'minstr' in dir() else [], maxstr if 'maxstr' in dir() else [], r100_t)
 
     # ---------------------------------------------------------------------------------------------
     # L6-derived source PQ
